@@ -76,6 +76,7 @@ func newInterpreter(p *Program, sh *Shared) *interpreter {
 		funcByNm:   map[string]*ssa.Function{},
 		stepBudget: sh.cfg.StepBudget,
 		funcsSeen:  map[*ssa.Function]int64{},
+		pure:       map[*ssa.Function]bool{},
 		trace:      sh.cfg.Trace,
 	}
 	if rt := p.Prog.ImportedPackage("runtime"); rt != nil {
